@@ -63,6 +63,19 @@ type plainReader struct{ r io.Reader }
 
 func (p *plainReader) Read(b []byte) (int, error) { return p.r.Read(b) }
 
+// a reader that satisfies every Read with at most n bytes (a connection delivering the frame in pieces)
+type chunkReader struct {
+	r io.Reader
+	n int
+}
+
+func (c *chunkReader) Read(b []byte) (int, error) {
+	if len(b) > c.n {
+		b = b[:c.n]
+	}
+	return c.r.Read(b)
+}
+
 func headerLen(v primitive.ProtocolVersion) int {
 	if v >= primitive.ProtocolVersion3 {
 		return 9
@@ -483,6 +496,73 @@ func runGenCase(id string, idx int, gc genCase) J {
 	})
 	partial("discard_consumed", false, func(h *frame.Header, src io.Reader) error { return codec.DiscardBody(h, src) })
 	partial("discard_seek_consumed", true, func(h *frame.Header, src io.Reader) error { return codec.DiscardBody(h, src) })
+
+	// sources that deliver the bytes in pieces (io.Reader allows short reads): every decoding path gives the same result
+	for _, chunk := range []int{1, 7, 4096} {
+		if chunk == 1 && len(enc) > 20000 {
+			continue
+		}
+		name := "chunked_decode"
+		checks[name] = checks[name] != false
+		func() {
+			in := append(append([]byte{}, enc...), trailer...)
+			br := bytes.NewReader(in)
+			var g *frame.Frame
+			var err error
+			if p, w := guard(func() { g, err = codec.DecodeFrame(&chunkReader{br, chunk}) }); p || err != nil {
+				fail(name, fmt.Sprintf("DecodeFrame from a source delivering %d byte(s) per Read: %v %v", chunk, w, err))
+				return
+			}
+			if d := frameEquiv(dec, g); d != "" {
+				fail(name, fmt.Sprintf("source delivering %d byte(s) per Read: %s", chunk, d))
+			} else if br.Len() != len(trailer) {
+				fail(name, fmt.Sprintf("source delivering %d byte(s) per Read: %d bytes left, expected %d", chunk, br.Len(), len(trailer)))
+			}
+		}()
+		name = "chunked_raw"
+		checks[name] = checks[name] != false
+		func() {
+			in := append(append([]byte{}, enc...), trailer...)
+			br := bytes.NewReader(in)
+			var rf *frame.RawFrame
+			var g *frame.Frame
+			var err error
+			if p, w := guard(func() { rf, err = codec.DecodeRawFrame(&chunkReader{br, chunk}) }); p || err != nil {
+				fail(name, fmt.Sprintf("DecodeRawFrame from a source delivering %d byte(s) per Read: %v %v", chunk, w, err))
+				return
+			}
+			if br.Len() != len(trailer) {
+				fail(name, fmt.Sprintf("DecodeRawFrame, source delivering %d byte(s) per Read: %d bytes left, expected %d", chunk, br.Len(), len(trailer)))
+				return
+			}
+			if !bytes.Equal(rf.Body, enc[hl:]) {
+				fail(name, fmt.Sprintf("DecodeRawFrame, source delivering %d byte(s) per Read: raw body differs from the emitted body", chunk))
+				return
+			}
+			if p, w := guard(func() { g, err = codec.ConvertFromRawFrame(rf) }); p || err != nil {
+				fail(name, fmt.Sprintf("ConvertFromRawFrame: %v %v", w, err))
+				return
+			}
+			if d := frameEquiv(dec, g); d != "" {
+				fail(name, d)
+			}
+			// DecodeHeader + DiscardBody on the same kind of source
+			br2 := bytes.NewReader(in)
+			src := &chunkReader{br2, chunk}
+			var h *frame.Header
+			if p, w := guard(func() { h, err = codec.DecodeHeader(src) }); p || err != nil {
+				fail(name, fmt.Sprintf("DecodeHeader from a source delivering %d byte(s) per Read: %v %v", chunk, w, err))
+				return
+			}
+			if p, w := guard(func() { err = codec.DiscardBody(h, src) }); p || err != nil {
+				fail(name, fmt.Sprintf("DiscardBody from a source delivering %d byte(s) per Read: %v %v", chunk, w, err))
+				return
+			}
+			if br2.Len() != len(trailer) {
+				fail(name, fmt.Sprintf("DecodeHeader+DiscardBody, source delivering %d byte(s) per Read: %d bytes left, expected %d", chunk, br2.Len(), len(trailer)))
+			}
+		}()
+	}
 
 	// re-encoding the decoded frame decodes again to an equal frame
 	checks["reencode_equal"] = true
